@@ -108,6 +108,22 @@ type partition struct {
 	// interior aliasing: param index -> (host param index, path inside the host's pointee)
 	inHost map[int]int
 	inPath map[int][]PE
+	// slice aliasing ("option slicealias"): slice carrier (a slice parameter, or a pointer parameter to a slice)
+	// -> representative carrier whose header (array, offset, length, capacity) it shares
+	sliceClass map[int]int
+}
+
+// sliceCarrierElem: element type when the parameter is a slice, or a pointer to a slice
+func sliceCarrierElem(t types.Type) (types.Type, bool) {
+	if sl, ok := t.Underlying().(*types.Slice); ok {
+		return sl.Elem(), true
+	}
+	if pt, ok := t.Underlying().(*types.Pointer); ok {
+		if sl, ok := pt.Elem().Underlying().(*types.Slice); ok {
+			return sl.Elem(), true
+		}
+	}
+	return nil, false
 }
 
 // interiorPaths lists the paths of sub-objects of type t inside type host (struct fields / small arrays).
@@ -238,6 +254,59 @@ func (v *Verifier) partitions(fn *ssa.Function, c *Contract) []partition {
 					parts = append(parts, p)
 				}
 			}
+		}
+	}
+	// identical-slice aliasing: carriers of the same element type may be the very same slice (same backing
+	// array, same bounds); partial overlaps are outside the model (stated as an assumption)
+	if c.Options["slicealias"] != "" {
+		sg := map[string][]int{}
+		var skeys []string
+		for i, prm := range fn.Params {
+			if et, ok := sliceCarrierElem(prm.Type()); ok {
+				k := typeKey(et)
+				if _, seen := sg[k]; !seen {
+					skeys = append(skeys, k)
+				}
+				sg[k] = append(sg[k], i)
+			}
+		}
+		for _, k := range skeys {
+			g := sg[k]
+			if len(g) < 2 {
+				continue
+			}
+			var np []partition
+			for _, base := range parts {
+				for _, sp := range setPartitions(len(g)) {
+					np0 := base
+					np0.sliceClass = map[int]int{}
+					for a, b := range base.sliceClass {
+						np0.sliceClass[a] = b
+					}
+					rep := map[int]int{}
+					byBlk := map[int][]string{}
+					var order []int
+					for j, blk := range sp {
+						if _, ok := rep[blk]; !ok {
+							rep[blk] = g[j]
+							order = append(order, blk)
+						}
+						np0.sliceClass[g[j]] = rep[blk]
+						byBlk[blk] = append(byBlk[blk], fn.Params[g[j]].Name())
+					}
+					var labels []string
+					for _, blk := range order {
+						labels = append(labels, strings.Join(byBlk[blk], "="))
+					}
+					l := "slices:" + strings.Join(labels, "|")
+					if np0.label != "" {
+						np0.label += ";"
+					}
+					np0.label += l
+					np = append(np, np0)
+				}
+			}
+			parts = np
 		}
 	}
 	return parts
@@ -382,7 +451,7 @@ func (v *Verifier) layerKeyOf(pkg *ssa.Package, c *Contract) string {
 	f := strings.Fields(c.Layer)
 	var ks []string
 	for _, tn := range f[1:] {
-		if tn == "ring" || tn == "opaque" {
+		if tn == "ring" || tn == "opaque" || tn == "bigint" {
 			ks = append(ks, "|"+tn)
 			continue
 		}
@@ -410,13 +479,13 @@ func (v *Verifier) setupLayer(pkg *ssa.Package, c *Contract) {
 		return
 	}
 	f := strings.Fields(c.Layer)
-	if f[0] != "ring" && f[0] != "opaque" {
+	if f[0] != "ring" && f[0] != "opaque" && f[0] != "bigint" {
 		unsup("unknown layer %q", c.Layer)
 	}
 	v.abstractProducts = false
 	kind := f[0]
 	for _, tn := range f {
-		if tn == "ring" || tn == "opaque" {
+		if tn == "ring" || tn == "opaque" || tn == "bigint" {
 			kind = tn
 			continue
 		}
@@ -426,6 +495,8 @@ func (v *Verifier) setupLayer(pkg *ssa.Package, c *Contract) {
 		}
 		if kind == "ring" {
 			v.abstract[typeKey(t)] = "ring"
+		} else if kind == "bigint" {
+			v.abstract[typeKey(t)] = "bigint"
 		} else {
 			v.abstract[typeKey(t)] = "opaque:" + sanitize(strings.ReplaceAll(tn, ".", "_"))
 		}
@@ -469,6 +540,11 @@ func (v *Verifier) runPartition(pkg *ssa.Package, fn *ssa.Function, c *Contract,
 	v.preamble = ""
 	v.noMerge = c.Options["nomerge"] != ""
 	v.opaqueCalls = c.Options["opaque-calls"] != ""
+	v.allowPanic = c.Options["panics-allowed"] != ""
+	v.opaqueNames = map[string]bool{}
+	for _, n := range strings.Fields(strings.ReplaceAll(c.Options["opaque"], ",", " ")) {
+		v.opaqueNames[n] = true // "option opaque f g": these callees are opaque here even if they have a contract
+	}
 	v.pureCalls = map[string]bool{}
 	for _, n := range strings.Split(c.Options["pure"], ",") {
 		if n = strings.TrimSpace(n); n != "" {
@@ -564,6 +640,34 @@ func (v *Verifier) runPartition(pkg *ssa.Package, fn *ssa.Function, c *Contract,
 		fr.params[name] = env[prm]
 		if a, ok := env[prm].(*AggV); ok {
 			fr.params[name] = wrapTyped(a, prm.Type())
+		}
+	}
+	// identical-slice aliasing: every carrier takes the header of its representative
+	for i, rep := range p.sliceClass {
+		if i == rep {
+			continue
+		}
+		var hdr Value
+		switch rv := env[fn.Params[rep]].(type) {
+		case *SliceV:
+			hdr = rv
+		case *PtrV:
+			hdr = st.mem[rv.Obj]
+			if hdr == nil {
+				hdr = v.initMem[rv.Obj]
+			}
+		}
+		if _, ok := hdr.(*SliceV); !ok {
+			unsup("slicealias: representative %s has no slice header", fn.Params[rep].Name())
+		}
+		switch iv := env[fn.Params[i]].(type) {
+		case *SliceV:
+			env[fn.Params[i]] = hdr
+			fr.params[fn.Params[i].Name()] = hdr
+		case *PtrV:
+			st.mem[iv.Obj] = hdr
+		default:
+			unsup("slicealias: parameter %s is not a slice carrier", fn.Params[i].Name())
 		}
 	}
 	for i, host := range p.inHost {
